@@ -970,6 +970,21 @@ static void exec_op(const op_t *op)
     case K_GETFZ0VEC:
 	vt_put("\"f\":%d,", op->a[0]);
 	break;
+    case K_GETFMIN:
+    case K_GETFMAX:
+	{
+	    /* is the frequency vector in ascending order? (the manual
+	     * speaks of the lowest / highest frequency) */
+	    int asc = 1;
+
+	    for (int f = 1; f < nf; ++f) {
+		if (!(LIB(vnadata_get_frequency(v, f - 1)) <=
+			    LIB(vnadata_get_frequency(v, f))))
+		    asc = 0;
+	    }
+	    vt_put("\"asc\":%d,", asc);
+	}
+	break;
     case K_SETFREQVEC:
     case K_SETZ0VEC:
 	put_ids("vec", op->vec, op->nvec);
@@ -1468,7 +1483,7 @@ static const char *valid_specs[] = {
 #define N_VSPEC ((int)(sizeof(valid_specs) / sizeof(valid_specs[0])))
 static const char *invalid_specs[] = {
     "Q", "Sxx", "Zindb", "SriX", "S;T", "ril", "prx", "vsw", "zi", "Smag",
-    "12", "S-ri",
+    "12", "S-ri", "S\x7f", "S\xc3\xa9", "\xe2\x82\xac",
 };
 #define N_ISPEC ((int)(sizeof(invalid_specs) / sizeof(invalid_specs[0])))
 
